@@ -189,6 +189,34 @@ pub fn run(o: &Opts) -> Report {
                     let verdict = pest_verdict(src);
                     let typed = generate(src, &[]);
                     rep.cases += 1;
+                    // the same grammar split over two attributes: same refusal, same code
+                    if let Some((first, rest)) = src.split_once('\n') {
+                        let split = crate::generate_pieces(&[format!("{}\n", first), rest.to_string()], &[]);
+                        let same = match (&typed, &split) {
+                            (Ok(a), Ok(b)) => a == b,
+                            (Err(_), Err(_)) => true,
+                            _ => false,
+                        };
+                        rep.cell("grammar-in-two-attributes-compared");
+                        if !same {
+                            rep.violation(Violation {
+                                lens: "C11".into(),
+                                signature: "grammar-pieces-not-treated-as-their-concatenation".into(),
+                                grammar: "bad".into(),
+                                family: "bad".into(),
+                                rule: String::new(),
+                                rule_def: src.replace('\n', " ; "),
+                                input: src.clone(),
+                                form: "grammar".into(),
+                                expected: format!("as the single attribute: {}", if typed.is_ok() { "code" } else { "refused" }),
+                                actual: match &split {
+                                    Ok(_) => "code (different or where the whole grammar is refused)".into(),
+                                    Err(p) => format!("refused: {}", p.lines().next().unwrap_or("")),
+                                },
+                                ..Default::default()
+                            });
+                        }
+                    }
                     let mk = |sig: &str, expected: String, actual: String| Violation {
                         lens: "C11".into(),
                         signature: sig.into(),
